@@ -2686,6 +2686,65 @@ class PFunc:
         return "<function %s>" % self.name
 
 
+def _memo_hash(v, depth=0):
+    """what hashing an argument of a memoised call does: nothing for a hashable value, TypeError (ValueError for a
+    writable memoryview) for an unhashable one; objects of evaluated classes hash by identity unless the class says otherwise"""
+    if isinstance(v, PInst):
+        for c in v.cls.mro:
+            if isinstance(c, PClass) and "__hash__" in c.ns:
+                if c.ns["__hash__"] is None:
+                    raise PyRaise(TypeError("unhashable type: '%s'" % v.cls.name))
+                raise MachUnknown("memoised call keyed by a %s object (its own __hash__)" % v.cls.name)
+            if isinstance(c, PClass) and "__eq__" in c.ns:
+                raise PyRaise(TypeError("unhashable type: '%s'" % v.cls.name))
+        return
+    if isinstance(v, _INTERP):
+        return
+    if isinstance(v, (tuple, frozenset)):
+        if depth > 20:
+            raise MachUnknown("deeply nested key of a memoised call")
+        for x in v:
+            _memo_hash(x, depth + 1)
+        return
+    try:
+        hash(v)
+    except (TypeError, ValueError) as e:
+        raise PyRaise(e)
+
+
+class _Memo:
+    """functools.lru_cache / functools.cache around an evaluated function: a call hashes its arguments before the body runs
+    (bytearray, list, dict, set: TypeError), equal arguments get the very object the first call returned, the least
+    recently used entry goes beyond maxsize; a call that raises is not remembered"""
+    KW = ("$kwd_mark",)
+
+    def __init__(self, maxsize, typed):
+        if not (maxsize is None or (isinstance(maxsize, int) and not isinstance(maxsize, bool))):
+            raise MachUnknown("lru_cache(maxsize=%r)" % (maxsize,))
+        self.maxsize, self.typed = (None if maxsize is None else max(maxsize, 0)), bool(typed)
+        self.store = {}                 # least recently used first
+
+    def call(self, mach, f, args, kw):
+        if self.maxsize == 0:
+            return mach.call_func_raw(f, args, kw)
+        key = tuple(args)
+        if kw:
+            key += (_Memo.KW,) + tuple(x for it in kw.items() for x in it)
+        for x in key:
+            _memo_hash(x)
+        if self.typed:
+            key += tuple(type(x) for x in args) + tuple(type(x) for x in kw.values())
+        if key in self.store:
+            v = self.store.pop(key)
+            self.store[key] = v
+            return v
+        v = mach.call_func_raw(f, args, kw)
+        self.store[key] = v
+        if self.maxsize is not None and len(self.store) > self.maxsize:
+            del self.store[next(iter(self.store))]
+        return v
+
+
 class PBound:
     def __init__(self, func, obj):
         self.func, self.obj = func, obj
@@ -2802,8 +2861,8 @@ class Mach:
                                       "calcsize": _struct.calcsize, "Struct": _struct.Struct, "error": _struct.error,
                                       "pack_into": _struct.pack_into})
         if name == "functools":
-            return PModule("functools", {"reduce": _functools.reduce, "lru_cache": ("special", "deco_factory"),
-                                         "cache": ("special", "identity"), "partial": _functools.partial,
+            return PModule("functools", {"reduce": _functools.reduce, "lru_cache": ("special", "lru_cache"),
+                                         "cache": ("special", "cache"), "partial": _functools.partial,
                                          "wraps": ("special", "deco_factory_id")})
         if name == "operator":
             return PModule("operator", {k: getattr(_op, k) for k in ("or_", "and_", "add", "sub", "mul", "xor", "lshift", "rshift",
@@ -3169,6 +3228,20 @@ class Mach:
         raise MachUnknown("host slot %s" % slot.name)
 
     def call_func(self, f, args, kw):
+        memo = getattr(f, "memo", None)
+        if memo is not None:
+            return memo.call(self, f, args, kw)         # functools.lru_cache / cache: see _Memo
+        return self.call_func_raw(f, args, kw)
+
+    def memoise(self, f, maxsize, typed):
+        if not isinstance(f, PFunc) or getattr(f, "memo", None) is not None:
+            raise MachUnknown("memoisation of %r" % (f,))
+        import copy as _copy
+        g = _copy.copy(f)
+        g.memo = _Memo(maxsize, typed)
+        return g
+
+    def call_func_raw(self, f, args, kw):
         node = f.node
         if getattr(node, "_is_gen", None) is None:
             body = node.body if isinstance(node.body, list) else [node.body]
@@ -3289,6 +3362,17 @@ class Mach:
             return ("special", "identity")
         if name == "deco_factory_id":
             return ("special", "identity")
+        if name == "lru_cache":
+            if len(args) == 1 and isinstance(args[0], PFunc) and not kw:
+                return self.memoise(args[0], 128, False)            # @lru_cache without parentheses
+            if len(args) > 2 or set(kw) - {"maxsize", "typed"}:
+                raise MachUnknown("lru_cache arguments")
+            a = list(args) + [kw.get("maxsize", 128), kw.get("typed", False)][len(args):]
+            return ("special", ("memo", a[0], a[1]))
+        if name == "cache":
+            return self.memoise(args[0], None, False) if len(args) == 1 and not kw else self.raise_(TypeError, "cache() takes one argument")
+        if isinstance(name, tuple) and name[0] == "memo":
+            return self.memoise(args[0], name[1], name[2]) if len(args) == 1 and not kw else self.raise_(TypeError, "decorator takes one argument")
         if name == "isinstance" or name == "issubclass":
             if len(args) != 2:
                 self.raise_(TypeError, "%s expected 2 arguments" % name)
@@ -5173,6 +5257,147 @@ def w_bufvals(lab, fams):
         fam.fail("a witness definition or its evaluation does not terminate (step budget exhausted)")
 
 
+# ---- decoded buffer values are octet strings of their own; length callbacks see an octet string (C16.R11) ---------
+
+def _octet_leaves(got, want, path=""):
+    """(path, decoded value) for every position where the reference value is an octet string"""
+    if isinstance(want, (bytes, bytearray)):
+        yield path, got
+    elif isinstance(want, dict) and isinstance(got, dict):
+        for k, x in want.items():
+            if k in got:
+                for r in _octet_leaves(got[k], x, "%s[%r]" % (path, k)):
+                    yield r
+    elif isinstance(want, list) and isinstance(got, list):
+        for i, (g, x) in enumerate(zip(got, want)):
+            for r in _octet_leaves(g, x, "%s[%d]" % (path, i)):
+                yield r
+
+
+def _own_defs():
+    """(label, reference: REnv | stand-alone RSeqF, two value assignments whose encodings have the same length)"""
+    tlv = lambda: REnv([RInt("Uint", "T"), RInt("Uint", "L"), RBuf("V", getlen=lambda v, d: v["L"])], name="TLV")
+    named = lambda: REnv([RInt("Uint", "tag"), RBuf("name", 2)], name="Named")
+    return [
+        ("stand-alone sequence of TLV items", RSeqF(tlv(), "items"),
+         [{"T": 1, "L": 2, "V": b"\xaa\xbb"}, {"T": 2, "L": 3, "V": b"\x01\x02\x03"}],
+         [{"T": 7, "L": 3, "V": b"xyz"}, {"T": 8, "L": 2, "V": b"\xfe\xff"}]),
+        ("sequence as the flexible last field", REnv([RInt("Uint", "id"), RSeqF(named(), "names")], name="Msg"),
+         {"id": 7, "names": [{"tag": 1, "name": b"ab"}, {"tag": 2, "name": b"cd"}]},
+         {"id": 9, "names": [{"tag": 5, "name": b"\x00\x01"}, {"tag": 6, "name": b"\xf0\xf1"}]}),
+        ("sequence field with a length callback", REnv([RInt("Uint", "n"), RSeqF(named(), "names", getlen=lambda v, d: 3 * v["n"]), RBuf("tail", 2)], name="Cnt"),
+         {"n": 2, "names": [{"tag": 1, "name": b"ab"}, {"tag": 2, "name": b"cd"}], "tail": b"TT"},
+         {"n": 2, "names": [{"tag": 3, "name": b"\x10\x11"}, {"tag": 4, "name": b"\x12\x13"}], "tail": b"uu"}),
+        ("sequence of items holding a sequence", RSeqF(REnv([RInt("Uint", "k"), RSeqF(named(), "in", 6)], name="Outer"), "items"),
+         [{"k": 1, "in": [{"tag": 1, "name": b"ab"}, {"tag": 2, "name": b"cd"}]}],
+         [{"k": 2, "in": [{"tag": 8, "name": b"\x80\x81"}, {"tag": 9, "name": b"\x82\x83"}]}]),
+        ("buffers at top level", REnv([RInt("Uint", "a"), RBuf("key", 4), RBuf("rest")], name="Top"),
+         {"a": 1, "key": b"\xde\xad\xbe\xef", "rest": b"rs"}, {"a": 2, "key": b"KEY2", "rest": b"\x00\x01"}),
+        ("buffer in a nested envelope", REnv([RInt("Uint", "a"), REnvF(REnv([RBuf("addr", 3), RInt("Uint", "t")], name="Inner"), "in", 4)], name="Outer"),
+         {"a": 1, "in": {"addr": b"\x01\x02\x03", "t": 9}}, {"a": 2, "in": {"addr": b"abc", "t": 8}}),
+    ]
+
+
+def _own_codec(lab, ref):
+    """(decode thunk factory returning the RAW decoded structure, reference encoder, reference decoder)"""
+    if isinstance(ref, RSeqF):
+        s = ref.build_seq(lab)
+        return (lambda buf: lab.meth(s, "from_bytes", buf)), (lambda v: ref.enc({ref.name: v})), ref.dec_list
+
+    def rdec(data):
+        vals = {}
+        ref.decode(vals, data)
+        return vals
+    e = ref.build(lab)
+
+    def dec(buf):
+        lab.meth(e, "from_bytes", buf)
+        return lab.m.getattr_(e, "c")
+    return dec, ref.encode, rdec
+
+
+def _guarded(fam, body):
+    try:
+        body()
+    except MachUnknown as ex:
+        fam.unknown = str(ex)
+    except PyRaise as ex:
+        fam.fail("a witness definition or its evaluation raises %s outside any modelled outcome" % ex.cls_name)
+    except MachTimeout:
+        fam.fail("a witness definition or its evaluation does not terminate (step budget exhausted)")
+
+
+def w_decoded_own(lab, fams):
+    """C16.R11 decides the buffer half of the clause `decoding the encoding of in-range values returns those values`
+    at value level: the value of a buffer is an octet string, so what decoding returns for it must BE an octet string
+    (bytes / bytearray: concatenation, .decode(), hashing of bytes work) that belongs to the result - a decoded message
+    is a value, it does not change when the caller's receive buffer is overwritten by the next datagram.  Every
+    definition is decoded from a bytes and from a bytearray witness; the bytearray is then overwritten with the
+    encoding of a second message of the same length and decoded again: both results must equal the reference.  How
+    the decoder walks its input (slices, offsets, views that are converted before they are stored) is not examined."""
+    fam = Family("C16.R11", "Buf", "a decoded buffer value is an octet string (bytes / bytearray) of its own: it equals the encoded octets, "
+                 "is not a view of the input, and stays what it was when the caller's bytearray is overwritten by the next datagram")
+    fams.append(fam)
+
+    def body():
+        for label, ref, v1, v2 in _own_defs():
+            dec, renc, rdec = _own_codec(lab, ref)
+            d1, d2 = renc(v1), renc(v2)
+            if len(d1) != len(d2) or rdec(d1) != v1 or rdec(d2) != v2:
+                raise AnalysisError("internal: reference model is not an inverse pair on %s" % label)
+            for kind in (bytes, bytearray):
+                buf = kind(d1)
+                what = "%s: %r decoded from %s(%r)" % (label, ref, kind.__name__, d1)
+                r1 = lab.run(lambda: dec(buf))
+                fam.check(what, ("ok", norm(r1[1])) if r1[0] == "ok" else r1, ("ok", v1))
+                if r1[0] != "ok":
+                    continue
+                odd = [(p, type(x).__name__) for p, x in _octet_leaves(r1[1], v1) if not isinstance(x, (bytes, bytearray))]
+                if odd:
+                    fam.fail("%s: the buffer value at %s is a %s, not an octet string" % (what, odd[0][0], odd[0][1]))
+                else:
+                    fam.ok()
+                if kind is bytearray:
+                    for i, x in enumerate(d2):
+                        buf[i] = x
+                    if norm(r1[1]) != v1:        # looked at before anything else is decoded through the definition
+                        fam.fail("%s: after the caller's bytearray was overwritten with %r the result reads %s (decoded values alias "
+                                 "the input buffer)" % (what, d2, _short_txt(norm(r1[1]), 200)))
+                    else:
+                        fam.ok()
+                    r2 = lab.run(lambda: dec(buf))
+                    fam.check("%s, then the same bytearray overwritten with %r and decoded" % (what, d2),
+                              ("ok", norm(r2[1])) if r2[0] == "ok" else r2, ("ok", v2))
+    _guarded(fam, body)
+    # length callbacks: get_len(vals, data) is documented as Callable[[dict, bytes], int] - `data` is the octet string
+    # that remains, and a variable-length field may find its end in it (terminator search)
+    fam2 = Family("C16.R11", "Field.get_len", "a length callback receives the remaining octets as an octet string: a variable-length buffer whose "
+                  "get_len searches its terminator with the methods of bytes (index / find / partition) decodes what was encoded - at top "
+                  "level, in a nested envelope, in sequence items and in a sequence field")
+    fams.append(fam2)
+    cbs = [("data.index(NUL) + 1", lambda v, d: d.index(b"\x00") + 1), ("data.find(NUL) + 1", lambda v, d: d.find(b"\x00") + 1),
+           ("len(data.partition(NUL)[0]) + 1", lambda v, d: len(d.partition(b"\x00")[0]) + 1)]
+
+    def body2():
+        for cbn, cb in cbs:
+            cstr = lambda: REnv([RInt("Uint", "tag"), RBuf("name", getlen=cb), RInt("Uint", "e")], name="CStr")
+            i1, i2 = {"tag": 1, "name": b"ab\x00", "e": 0x21}, {"tag": 2, "name": b"\x00", "e": 0x22}
+            for label, ref, v in (
+                    ("top level", cstr(), i1),
+                    ("nested envelope", REnv([RInt("Uint", "a"), REnvF(cstr(), "in"), ], name="Outer"), {"a": 5, "in": i2}),
+                    ("stand-alone sequence", RSeqF(cstr(), "items"), [i1, i2, dict(i1, name=b"wxyz\x00")]),
+                    ("sequence field", REnv([RInt("Uint", "id"), RSeqF(cstr(), "names")], name="Msg"), {"id": 7, "names": [i2, i1]})):
+                dec, renc, rdec = _own_codec(lab, ref)
+                d = renc(v)
+                if rdec(d) != v:
+                    raise AnalysisError("internal: reference model is not an inverse pair on %s" % label)
+                for kind in (bytes, bytearray):
+                    buf = kind(d)
+                    fam2.check("%s, get_len = %s: %r decoded from %s(%r)" % (label, cbn, ref, kind.__name__, d),
+                               lab.run(lambda: norm(dec(buf))), ("ok", v))
+    _guarded(fam2, body2)
+
+
 def w_presence(lab, fams):
     m = lab.m
     fam = Family("C16.R5", "Field", "presence protocol: a field is absent exactly when get_pres(vals) is the bool False (any other result, also a falsy "
@@ -5699,7 +5924,7 @@ def w_toolkit_defs(lab, fams):
             fam.fail("evaluating the definition does not terminate (step budget exhausted)")
 
 
-WITNESS_GROUPS = (w_bits, w_ints, w_length, w_nesting, w_errors, w_bufvals, w_presence, w_ownership, w_seq_closure, w_reuse, w_toolkit_defs)
+WITNESS_GROUPS = (w_bits, w_ints, w_length, w_nesting, w_errors, w_bufvals, w_decoded_own, w_presence, w_ownership, w_seq_closure, w_reuse, w_toolkit_defs)
 
 
 def run_witnesses(L, repo):
@@ -5874,6 +6099,14 @@ def commit_witnesses(L, V):
     if not V.error and not r10_open and not any(f.bad for f in r10):
         L.floor("C16.R10", "buffer positions (top level, flexible, nested envelope, one octet, sequence item) evaluated", len(_buf_defs()), 5)
         L.floor("C16.R10", "buffer value witnesses encoded through the public Envelope.to_bytes()", sum(f.n for f in r10), 55)
+    # C16.R11 (decoded buffers are octet strings of their own, length callbacks see octet strings): witnesses only
+    r11 = [f for f in V.fams if f.rule == "C16.R11"]
+    r11_open = [f for f in r11 if f.unknown is not None and f.bad is None]
+    for f in r11_open:
+        L.deficits.append("w_decoded_own: %s witnesses could not be evaluated (%s)" % (f.func, _short_txt(f.unknown, 200)))
+    if not V.error and not r11_open and not any(f.bad for f in r11):
+        L.floor("C16.R11", "witness families (decoded buffer values, length callbacks that search the remaining octets)", len(r11), 2)
+        L.floor("C16.R11", "decodings from bytes / bytearray witnesses compared with the reference", sum(f.n for f in r11), 60)
     # C16.R9: the code analysis (r9_state) decides where nothing is kept between messages; what it leaves open needs these
     r9 = [f for f in V.fams if f.rule == "C16.R9"]
     if not V.error and r9 and not any(f.unknown is not None and f.bad is None for f in r9):
